@@ -2,11 +2,15 @@
 C24 — ticks advance one at a time, deferred data lands in the next tick, run-until-idle, 'tick vs 'static.
 
 Models: `HvTick.Model.Tick` (tick closure skeleton of `as_code` + `run_tick`/`run_available_sync`, over the
-pipeline stage language of the corpus) and `HvTick.Model.Ticks` (`TickInstant`/`TickDuration` on `UInt64`/`Int64`).
+pipeline stage language of the corpus), `HvTick.Model.Ticks` (`TickInstant`/`TickDuration` on `UInt64`/`Int64`) and, for
+ticks × `loop { }` blocks, `HvTick.Model.Loop` (the same closure with loop gates: the schedule check reads `back` for a
+`defer_tick` consumed in a root-level loop, the tick-end code is collected from operators at every loop depth).
 All statements are for every program of the stage language, every state, every input batch / injection.
 -/
 import HvTick.Model.Tick
 import HvTick.Model.Ticks
+import HvTick.Model.Loop
+import HvTick.Props.C26
 import HvTick.Gen.TickEnd
 
 namespace HvTick.Ticks
@@ -372,3 +376,276 @@ example :
     ((runAvailable 10 s0 []).1.sts.map (·.back)) = [[], [5], []] := by decide
 
 end HvTick.Tick
+
+/-! ## ticks × `loop { }` blocks (model `HvTick.Model.Loop`) -/
+namespace HvTick.Loop
+
+/-- the two loop-related decisions of the tick closure, as found in meta_graph.rs on this run, are the ones the
+theorems below are about (`Cfg` `⟨true, true⟩`) -/
+theorem gen_tick_closure_loop_flags :
+    Gen.schedRootLoopChecksBack = true ∧ Gen.tickEndCollectedInLoops = true := by decide
+
+/-! ### the tick counter and run-until-idle -/
+
+theorem loop_tick_counter_succ (c : Cfg) (fuel : Nat) (s s' : RSt) (b1 b2 : List Int) (o : Outs) (sch : Bool)
+    (h : tickClosureWith c fuel s b1 b2 = some (s', o, sch)) : s'.tick = s.tick + 1 := by
+  unfold tickClosureWith at h
+  split at h
+  · simp only [Option.some.injEq, Prod.mk.injEq] at h
+    rw [← h.1]
+  · simp at h
+
+/-- **`run_available` takes another tick iff the tick asked for one** (`schedule_subgraph(true)`), and then with no new
+input; otherwise it stops after this tick -/
+theorem loop_runAvailable_continues_iff (c : Cfg) (fuel n : Nat) (s s' : RSt) (a b : List Int) (o : Outs) (sch : Bool)
+    (h : tickClosureWith c fuel s a b = some (s', o, sch)) :
+    runAvailableWith c fuel (n + 1) s a b =
+      if sch then (runAvailableWith c fuel n s' [] []).map fun r => (r.1, o :: r.2) else some (s', [o]) := by
+  simp [runAvailableWith, h]
+
+/-- `run_available` advances the counter by exactly the number of ticks it ran -/
+theorem loop_runAvailable_counter (c : Cfg) (fuel n : Nat) (s s' : RSt) (a b : List Int) (os : List Outs)
+    (h : runAvailableWith c fuel n s a b = some (s', os)) : s'.tick = s.tick + os.length := by
+  induction n generalizing s a b os with
+  | zero => simp [runAvailableWith] at h
+  | succ k ih =>
+    cases ht : tickClosureWith c fuel s a b with
+    | none => simp [runAvailableWith, ht] at h
+    | some r =>
+      obtain ⟨s1, o, sch⟩ := r
+      have h1 := loop_tick_counter_succ c fuel s s1 a b o sch ht
+      rw [loop_runAvailable_continues_iff c fuel k s s1 a b o sch ht] at h
+      cases sch with
+      | false =>
+        simp only [Bool.false_eq_true, ↓reduceIte, Option.some.injEq, Prod.mk.injEq] at h
+        rw [← h.1, ← h.2, h1]; rfl
+      | true =>
+        simp only [↓reduceIte] at h
+        cases hr : runAvailableWith c fuel k s1 [] [] with
+        | none => simp [hr] at h
+        | some q =>
+          obtain ⟨q1, q2⟩ := q
+          simp only [hr, Option.map_some, Option.some.injEq, Prod.mk.injEq] at h
+          obtain ⟨rfl, rfl⟩ := h
+          have := ih s1 [] [] q2 hr
+          rw [this, h1, List.length_cons]; omega
+
+/-! ### the schedule check -/
+
+/-- **What the schedule check looks at**: the tick asks for another one iff some *non-lazy* delayed handoff holds
+data after the body — in its `back` buffer when its consumer sits in a root-level loop (the loop's `if` gate has
+already swapped it), in its `buf` otherwise (the tick-level swap comes after the check). -/
+theorem loop_sched_iff (c : Cfg) (hc : c.schedRootBack = true) (fuel : Nat) (s s' : RSt) (b1 b2 : List Int) (o : Outs)
+    (sch : Bool) (r : Env × List Int × Outs) (hr : runNodes fuel 0 s.prog s.env b1 b2 = some r)
+    (h : tickClosureWith c fuel s b1 b2 = some (s', o, sch)) :
+    sch = true ↔ ∃ d ∈ allDelays fuel 0 s.prog, d.2.1 = false ∧
+      (if d.2.2 = true then (r.1.get d.1).back ≠ [] else (r.1.get d.1).buf ≠ []) := by
+  simp only [tickClosureWith, hr, hc, Bool.true_and, Option.some.injEq, Prod.mk.injEq] at h
+  rw [← h.2.2, List.any_eq_true]
+  constructor
+  · rintro ⟨d, hd, hx⟩
+    refine ⟨d, hd, ?_⟩
+    cases h1 : d.2.1 <;> cases h2 : d.2.2 <;> simp_all
+  · rintro ⟨d, hd, h1, hx⟩
+    refine ⟨d, hd, ?_⟩
+    cases h2 : d.2.2 <;> simp_all
+
+/-- **Lazy data alone never asks for another tick**, also inside loop blocks: a program whose delayed handoffs are all
+lazy never calls `schedule_subgraph`, whatever its buffers hold … -/
+theorem loop_lazy_alone_does_not_continue (c : Cfg) (fuel : Nat) (s s' : RSt) (b1 b2 : List Int) (o : Outs) (sch : Bool)
+    (hl : ∀ d ∈ allDelays fuel 0 s.prog, d.2.1 = true)
+    (h : tickClosureWith c fuel s b1 b2 = some (s', o, sch)) : sch = false := by
+  unfold tickClosureWith at h
+  split at h
+  · simp only [Option.some.injEq, Prod.mk.injEq] at h
+    rw [← h.2.2, List.any_eq_false]
+    intro d hd
+    simp [hl d hd]
+  · simp at h
+
+/-- … so `run_available` stops after that tick, even though lazy buffers may be full -/
+theorem loop_runAvailable_stops_on_lazy_only (c : Cfg) (fuel n : Nat) (s s' : RSt) (a b : List Int) (o : Outs) (sch : Bool)
+    (hl : ∀ d ∈ allDelays fuel 0 s.prog, d.2.1 = true)
+    (h : tickClosureWith c fuel s a b = some (s', o, sch)) :
+    runAvailableWith c fuel (n + 1) s a b = some (s', [o]) := by
+  rw [loop_runAvailable_continues_iff c fuel n s s' a b o sch h,
+    loop_lazy_alone_does_not_continue c fuel s s' a b o sch hl h]
+  rfl
+
+/-- **Why the check must read `back` for a root-level loop**: after the loop body `pre ++ defer_tick :: post` and the
+loop's own swap code (both inside the `if` gate, before the schedule check) everything that entered the `defer_tick`
+(`c1`) is in `back` and `buf` is empty — a check of `buf` can never see it. -/
+theorem root_loop_deferred_data_only_in_back (f p : Nat) (l : Bool) (pre post : List Node) (env : Env)
+    (b1 s2 : List Int) (r1 : Env × List Int × Outs) (e1 : Env) (c1 : List Int) (o1 : Outs)
+    (h1 : runNodes f 1 (pre ++ .defer p l :: post) env b1 s2 = some r1)
+    (hpre1 : runNodes f 1 pre env b1 s2 = some (e1, c1, o1))
+    (hmpre : mentions p f pre = false) (hmpost : mentions p (f - pre.length - 1) post = false) :
+    ((swapAll (directDelays (pre ++ .defer p l :: post)) r1.1).get p).buf = [] ∧
+    ((swapAll (directDelays (pre ++ .defer p l :: post)) r1.1).get p).back = c1 := by
+  rw [deferTick_in_loop_stored_in_back f 1 p l pre post env b1 s2 r1 e1 c1 o1 h1 hpre1 hmpre hmpost]
+  exact ⟨rfl, rfl⟩
+
+/-- the program of the missed defect: `loop { src -> batch() -> tap 0 -> cycle(<3) through defer_tick -> tap 1 }` -/
+def rootCycle : RSt := ⟨[.loop 0 false none [.tap 0, .cycle 0 false 3, .tap 1]], [], 0⟩
+
+/-- with the special case `run_available` on input `[1]` runs three ticks (1, then the deferred 2, then 3) … -/
+example : (runAvailableWith ⟨true, true⟩ 30 10 rootCycle [1] []).map (fun r => (r.1.tick, r.2)) =
+    some (3, [[(100, [1]), (0, [1]), (1, [1])], [(100, [1]), (0, []), (1, [2])], [(100, [1]), (0, []), (1, [3])]]) := by
+  decide
+
+/-- **… and without it (every handoff checked on `buf`) the runner stops after one tick although the deferred `2` is
+pending in `back`** — the root-loop special case of the schedule check is necessary. -/
+theorem sched_root_loop_special_case_necessary :
+    (runAvailableWith ⟨false, true⟩ 30 10 rootCycle [1] []).map (fun r => (r.1.tick, r.2.length, (r.1.env.get 0).back)) =
+      some (1, 1, [2]) ∧
+    (runAvailableWith ⟨true, true⟩ 30 10 rootCycle [1] []).map (fun r => (r.1.tick, r.2.length, (r.1.env.get 0).back)) =
+      some (3, 3, []) := by decide
+
+/-! ### 'tick state is cleared at the end of every tick — at every loop depth — and 'static state is kept -/
+
+theorem aux_tickEnd_default (inl : Bool) (l : List (Nat × Bool × Bool)) (e : Env) (p : Nat)
+    (h : e.get p = default) : (tickEndAll inl l e).get p = default := by
+  induction l generalizing e with
+  | nil => exact h
+  | cons x r ih =>
+    obtain ⟨q, st, il⟩ := x
+    simp only [tickEndAll]
+    apply ih
+    split
+    · by_cases hq : q = p
+      · subst hq; exact aux_get_set_same _ _ _
+      · rw [aux_get_set_ne _ _ _ _ hq]; exact h
+    · exact h
+
+theorem aux_tickEnd_resets (inl : Bool) (l : List (Nat × Bool × Bool)) (e : Env) (p : Nat) (il : Bool)
+    (hm : (p, false, il) ∈ l) (hc : inl = true ∨ il = false) : (tickEndAll inl l e).get p = default := by
+  induction l generalizing e with
+  | nil => simp at hm
+  | cons x r ih =>
+    by_cases hr : (p, false, il) ∈ r
+    · obtain ⟨q, st, il'⟩ := x
+      simp only [tickEndAll]
+      exact ih _ hr
+    · have hx : x = (p, false, il) := by
+        rcases List.mem_cons.mp hm with h | h
+        · exact h.symm
+        · exact absurd h hr
+      subst hx
+      simp only [tickEndAll]
+      apply aux_tickEnd_default
+      have : (!false && (inl || !il)) = true := by rcases hc with h | h <;> simp [h]
+      rw [this]
+      exact aux_get_set_same _ _ _
+
+theorem aux_tickEnd_frame (inl : Bool) (l : List (Nat × Bool × Bool)) (e : Env) (p : Nat)
+    (h : ∀ x ∈ l, x.1 = p → x.2.1 = true) : (tickEndAll inl l e).get p = e.get p := by
+  induction l generalizing e with
+  | nil => rfl
+  | cons x r ih =>
+    obtain ⟨q, st, il⟩ := x
+    simp only [tickEndAll]
+    rw [ih _ (fun y hy => h y (by simp [hy]))]
+    split
+    · rename_i hcond
+      by_cases hq : q = p
+      · have := h (q, st, il) (by simp) hq
+        simp only at this
+        simp [this] at hcond
+      · exact aux_get_set_ne _ _ _ _ hq
+    · rfl
+
+/-- **'tick state is cleared at the end of every tick, wherever the operator stands**: after the tick closure the state
+slot of every `'tick` operator of the program — outside loops, in a root-level loop or in a nested loop (`il` is
+arbitrary) — is back to its initial value. -/
+theorem loop_tick_state_cleared (c : Cfg) (hc : c.tickEndInLoops = true) (fuel : Nat) (s s' : RSt) (b1 b2 : List Int)
+    (o : Outs) (sch : Bool) (h : tickClosureWith c fuel s b1 b2 = some (s', o, sch))
+    (p : Nat) (il : Bool) (hp : (p, false, il) ∈ allOps fuel 0 s.prog) : s'.env.get p = default := by
+  unfold tickClosureWith at h
+  split at h
+  · simp only [Option.some.injEq, Prod.mk.injEq] at h
+    rw [← h.1]
+    exact aux_tickEnd_resets _ _ _ p il hp (Or.inl hc)
+  · simp at h
+
+/-- **'static state is kept**: a slot used only by `'static` operators (and by no tick-level delayed handoff) leaves the
+tick exactly as the body left it. -/
+theorem loop_static_state_kept (c : Cfg) (fuel : Nat) (s s' : RSt) (b1 b2 : List Int) (o : Outs) (sch : Bool)
+    (r : Env × List Int × Outs) (hr : runNodes fuel 0 s.prog s.env b1 b2 = some r)
+    (h : tickClosureWith c fuel s b1 b2 = some (s', o, sch))
+    (p : Nat) (hp : ∀ x ∈ allOps fuel 0 s.prog, x.1 = p → x.2.1 = true)
+    (hd : ∀ x ∈ directDelays s.prog, x.1 ≠ p) : s'.env.get p = r.1.get p := by
+  simp only [tickClosureWith, hr, Option.some.injEq, Prod.mk.injEq] at h
+  rw [← h.1]
+  simp only
+  rw [aux_tickEnd_frame _ _ _ p hp, aux_swapAll_frame p _ _ hd]
+
+/-- what a `'static` operator's slot holds after the body: everything it held before plus what it absorbed — e.g. for
+`fold` the old items followed by this run's batch -/
+theorem op_node_state (f d p : Nat) (k : OpKind) (st : Bool) (t : Nat) (ns : List Node) (env : Env) (b s2 : List Int)
+    (r : Env × List Int × Outs) (h : runNodes (f + 1) d (.op p k st t :: ns) env b s2 = some r)
+    (hm : mentions p f ns = false) : r.1.get p = ⟨(opStep k (env.get p).buf b).1, []⟩ := by
+  simp only [runNodes] at h
+  cases hq : runNodes f d ns (env.set p ⟨(opStep k (env.get p).buf b).1, []⟩) (opStep k (env.get p).buf b).2.1 s2 with
+  | none => simp [hq] at h
+  | some q =>
+    simp only [hq, Option.map_some, Option.some.injEq] at h
+    have : r.1 = q.1 := by rw [← h]
+    rw [this, frame p f d ns _ _ s2 q hq hm, aux_get_set_same]
+
+theorem aux_allOps_inLoop (f d : Nat) (hd : d ≠ 0) (ns : List Node) : ∀ x ∈ allOps f d ns, x.2.2 = true := by
+  induction f generalizing d ns with
+  | zero => simp [allOps]
+  | succ k ih =>
+    cases ns with
+    | nil => simp [allOps]
+    | cons n r =>
+      cases n with
+      | op q kd st t =>
+        simp only [allOps, List.mem_cons]
+        rintro x (rfl | hx)
+        · simpa using hd
+        · exact ih d hd r x hx
+      | loop id ml ex body =>
+        simp only [allOps, List.mem_append]
+        rintro x (hx | hx)
+        · exact ih (d + 1) (by omega) body x hx
+        · exact ih d hd r x hx
+      | map c => simpa [allOps] using ih d hd r
+      | tap i => simpa [allOps] using ih d hd r
+      | defer q l => simpa [allOps] using ih d hd r
+      | cycle q l m => simpa [allOps] using ih d hd r
+
+/-- **Where the tick-end code is collected from**: the operators of a loop body — at whatever depth — are among the
+collected ones (so `loop_tick_state_cleared` applies to them), marked as inside a loop block. -/
+theorem tickEnd_collected_from_loop_bodies (f d id : Nat) (ml : Bool) (ex : Option Bool) (body r : List Node) :
+    ∀ x ∈ allOps f (d + 1) body, x ∈ allOps (f + 1) d (.loop id ml ex body :: r) ∧ x.2.2 = true := by
+  intro x hx
+  exact ⟨by simp [allOps, hx], aux_allOps_inLoop f (d + 1) (by omega) body x hx⟩
+
+/-- a root-level loop with a `'tick` and a `'static` fold, three ticks with inputs [1,2], [10], [100] -/
+def foldsInLoop : RSt := ⟨[.loop 0 false none [.tap 0, .op 0 .fold false 8, .op 1 .fold true 9]], [], 0⟩
+
+def threeTicks (c : Cfg) (s : RSt) : Option (List Outs) :=
+  (tickClosureWith c 30 s [1, 2] []).bind fun r1 =>
+  (tickClosureWith c 30 r1.1 [10] []).bind fun r2 =>
+  (tickClosureWith c 30 r2.1 [100] []).map fun r3 => [r1.2.1, r2.2.1, r3.2.1]
+
+/-- **… and collecting it there is necessary**: if `write_tick_end` were collected only from operators outside loop
+blocks, the `'tick` fold in the loop (tap 8) would behave like the `'static` one (tap 9): 3, 13, 113 instead of
+3, 10, 100. -/
+theorem tickEnd_in_loops_necessary :
+    threeTicks ⟨true, true⟩ foldsInLoop =
+      some [[(100, [1]), (0, [1, 2]), (8, [3]), (9, [3])], [(100, [1]), (0, [10]), (8, [10]), (9, [13])],
+            [(100, [1]), (0, [100]), (8, [100]), (9, [113])]] ∧
+    threeTicks ⟨true, false⟩ foldsInLoop =
+      some [[(100, [1]), (0, [1, 2]), (8, [3]), (9, [3])], [(100, [1]), (0, [10]), (8, [13]), (9, [13])],
+            [(100, [1]), (0, [100]), (8, [113]), (9, [113])]] := by decide
+
+/-- non-vacuity of `loop_tick_state_cleared` / `tickEnd_collected_from_loop_bodies`: a `'tick` `unique` in a nested
+loop is collected, and its set is empty again after a tick that filled it -/
+example :
+    (1, false, true) ∈ allOps 30 0 [.loop 0 false none [.loop 1 false none [.cycle 0 false 3, .op 1 .unique false 0]]] ∧
+    (tickClosureWith ⟨true, true⟩ 30 ⟨[.loop 0 false none [.loop 1 false none [.cycle 0 false 3, .op 1 .unique false 0]]], [], 0⟩
+      [1] []).map (fun r => (r.1.env.get 1).buf) = some [] := by decide
+
+end HvTick.Loop
